@@ -177,6 +177,64 @@ PROPS = {
         design_ref="DESIGN.md §5 C05",
         assumptions=[],
     ),
+    "C14": dict(
+        units=["mux"],
+        level="proof",
+        level_text="(being extended) header codec bijection, inbound dispatch with permits on the real text",
+        level_note="see DESIGN.md",
+        technique="contract-based deductive verification (Verus on extracted real functions; bit-vector lemmas for the header)",
+        design_ref="DESIGN.md §5 C14",
+        assumptions=[],
+    ),
+    "C16": dict(
+        units=["replica"],
+        level="proof",
+        level_text="Channel half. Deductive proof (Verus) over the real text of bft::inbound_selection_function, inbound_filter_predicate, "
+                   "ConsensusMsg::view_number and ChonkyMsg::view_number: messages of different senders or kinds never displace each other; "
+                   "of two messages of the same sender and kind exactly the one with the higher view survives and a tie keeps the pending "
+                   "one; a message is filtered only if its signature is invalid; computing the view of an unverified message never panics.",
+        level_note="NOT decided yet: the pruning closure of prunable_mpsc::Sender::send (it mutates a captured flag, which Verus rejects; a "
+                   "bounded Kani stand-in is planned) and the replica-side vote caches (abstracted regions of on_commit/on_timeout). "
+                   "ConsensusMsg::label() is taken to identify the message kind (4 distinct literals).",
+        technique="contract-based deductive verification (Verus on extracted real functions)",
+        design_ref="DESIGN.md §5 C16",
+        assumptions=[],
+    ),
+    "C18": dict(
+        units=["addrs"],
+        kani=["is_newer"],
+        level="proof",
+        level_text="Deductive proof (Verus) over the real text of ValidatorAddrs::update and ValidatorAddrsWatch::update: after the call (also "
+                   "when the batch is rejected half-way) every entry is the one held before or an announcement from the batch that is by a "
+                   "committee member, passed the signature check and is strictly newer in (version, timestamp) than what it replaced; "
+                   "non-members are ignored; an accepted batch has pairwise distinct keys and is applied completely, the flag tells whether "
+                   "anything changed; the published book is replaced only by the result of a completely applied accepted batch (a rejected "
+                   "batch is never published). Thorough tier: Kani (loop-free, complete) proves NetAddress::is_newer on the real crate is the "
+                   "strict lexicographic order on (version, timestamp) over all 64-bit versions -- hence arrival-order independence.",
+        level_note="Trusted: signature check predicate, im::HashMap/HashSet as finite map/set, the Watch mutex serialises writers (A4). "
+                   "is_newer's contract is assumed in the Verus unit and discharged by the Kani harness (thorough tier). announce() is not covered.",
+        technique="contract-based deductive verification (Verus, loop invariant over the batch) + Kani complete harness for the order",
+        design_ref="DESIGN.md §5 C18",
+        assumptions=[],
+    ),
+    "C12": dict(
+        units=["admission"],
+        level="proof",
+        level_text="Deductive proof (Verus) over the real text of the four handshake functions (gossip/consensus x inbound/outbound) and of the two "
+                   "pool closures (PoolWatch::insert / remove, lifted mechanically): a handshake returns identity K only if a handshake message "
+                   "was received ON THIS STREAM whose signed session id equals the id of this very noise session, whose genesis equals ours, "
+                   "whose key is K (and, outbound, K is the dialled peer) and whose signature verifies -- and the handshake we send signs this "
+                   "stream's id; pool: an identity is admitted iff it has no entry yet and is configured or the quota of non-configured peers "
+                   "is not exhausted; the invariant extra_count == |connected \\ configured| <= quota is preserved by insert and remove (no "
+                   "underflow); a refused insert changes nothing.",
+        level_note="Trusted: the noise handshake hash identifies the session and cannot be chosen by a peer (snow), signature predicates, "
+                   "framing (send_proto/recv_proto stubs), im::HashMap/HashSet as finite map/set. Not decided: interleavings of concurrent "
+                   "inserts (serialised by the Watch mutex, A4), where the runners call insert/remove, and that the validator network passes "
+                   "the committee with quota 0 (PoolWatch::new call sites).",
+        technique="contract-based deductive verification (Verus on extracted real functions and mechanically lifted closures)",
+        design_ref="DESIGN.md §5 C12",
+        assumptions=[],
+    ),
 }
 
 NOT_APPLICABLE = {
